@@ -90,6 +90,9 @@ func RunC10(tier string) int {
 	})
 	// holder and contender owned by different users
 	c10CrossUser(run, probe, base, tierN(tier, 6, 40))
+	// whole builds that leave their lock file behind (killed at a locker step; a system call on
+	// the lock file fails), then an ordinary build
+	c10LockLeftBehind(run, tierN(tier, 20, 120))
 	run.Assume("the controller serialises the steps: 'both in the critical section' is observed at a point of the schedule, not inferred from timestamps; waiting contenders sleep their real 1 s")
 	run.Assume("a lock file naming a live unrelated PID (PID reuse) is not generated: the statement speaks about locks left by dead processes")
 	return run.Finish()
